@@ -37,6 +37,9 @@ func (c *Ctx) workerOf(fi *FuncInfo) (*ast.FuncLit, *ast.RangeStmt) {
 // ------------------------------------------------------------------------------------ C08
 
 func checkC08(c *Ctx) {
+	// the split look-up these results rest on is orientation/rooting independent (shared with C04)
+	c.Decides("SYM (shared with C04): the hash under which a split is looked up is invariant under exchanging the two sides of the branch, so the result does not depend on where either tree is rooted")
+	c.edgeHashSym()
 	c.Decides("LF: the record sent by Compare carries (id, total−common, total2−common, common) where total counts the reference branches and total2/common the compared ones; GF: a branch is counted exactly when (tips ∨ it is not a tip branch), at every counting site of Compare and CompareWeighted and in CommonEdges")
 	c.Decides("DEP: the 'identical' verdict of Compare depends on the reference-side count as well as on the compared-side look-ups (a verdict that never looks at how many reference splits exist is wrong when the compared tree is a strict contraction of the reference)")
 	c.Decides("ERRFLOW: Trees.Err, ReinitIndexes and CompareTipIndexes errors reach the Err field of the record; CompareTipIndexes returns a non-nil error on each of its mismatch branches and tests both sizes and every name")
@@ -485,6 +488,9 @@ func (c *Ctx) compareTipIndexesRule() {
 // ------------------------------------------------------------------------------------ C09
 
 func checkC09(c *Ctx) {
+	// the split look-up these results rest on is orientation/rooting independent (shared with C04)
+	c.Decides("SYM (shared with C04): the hash under which a split is looked up is invariant under exchanging the two sides of the branch, so the result does not depend on where either tree is rooted")
+	c.edgeHashSym()
 	c.Decides("GF: the split index keeps an entry iff (count > min ∧ count ≤ max) ∨ count = max and Consensus calls it with (int(cutoff·n), n); thresholds are rejected iff cutoff < 0.5 ∨ cutoff > 1")
 	c.Decides("LF: AddEdgeCount starts an entry at (1, length) and adds (1, length) to an existing one; the consensus branch gets length Len/Count and support Count/n, tip branches Len/Count; ERRFLOW: a tree carrying an error, failing to index, of different size or with an unknown name makes Consensus return a non-nil error")
 	c.DoesNotDecide("placement of the kept splits (LCA / AddBipartition semantics), rooted inputs counting the root split twice, order independence of the result")
@@ -712,6 +718,9 @@ func checkC09(c *Ctx) {
 // ------------------------------------------------------------------------------------ C10
 
 func checkC10(c *Ctx) {
+	// the split look-up these results rest on is orientation/rooting independent (shared with C04)
+	c.Decides("SYM (shared with C04): the hash under which a split is looked up is invariant under exchanging the two sides of the branch, so the result does not depend on where either tree is rooted")
+	c.edgeHashSym()
 	c.Decides("ERRFLOW: in FBP (workers) and TBE the errors of Trees.Err, ReinitIndexes and of the taxon-set check CompareTipIndexes reach the error the function returns on every path where they are non-nil (bootstrap trees on other taxa are rejected)")
 	c.Decides("LF: Felsenstein support = found-count / number of accepted trees; transfer support = 1 − (Σdist/n)/(depth−1) with Σdist accumulated as +0 when the split is present and +minimum transfer distance otherwise; PATH/GF: supports are written on reference branches only when the branch is not a tip branch")
 	c.DoesNotDecide("the transfer-distance recursion (MinTransferDist), ranges [0,1], TBE >= FBP, independence from tree order / rooting")
